@@ -823,7 +823,7 @@ CHECKS = [
     Check("pss", run=run_pss, strategy=strat_pss, examples=(3000, 80000), shards=(16, 16),
           rule="RSASSA-PSS: signature == reference encoding with the same salt; crafted EMs judged by EMSA-PSS-VERIFY"),
     Check("dss", run=run_dss, strategy=strat_dss, examples=(3000, 80000), shards=(16, 16),
-          rule="DSA/ECDSA: RFC 6979 byte-exact; out-of-range r/s, (r, q-s), malformed DER, cross-encoding candidates judged by FIPS 186-4 reference"),
+          rule="DSA/ECDSA: RFC 6979 byte-exact; out-of-range r/s, (r, q-s), malformed DER, cross-encoding candidates, and ECDSA pairs crafted for a derived key (DER body lengths up to the 127/128 boundary) judged by FIPS 186-4 reference"),
     Check("eddsa", run=run_eddsa, strategy=strat_eddsa, examples=(1600, 40000), shards=(16, 16),
           rule="Ed25519/Ed448 pure/ph/ctx: byte-exact; S>=L, non-canonical R/A, off-curve R, context/prehash confusion judged by RFC 8032 reference"),
 ]
